@@ -12,7 +12,7 @@
    gives deadlock-freedom and the link structure; a measure that every step decreases gives termination with an explicit
    bound.  The earlier bounded statements (reachable sets of up to 3 workers enumerated by the kernel) are kept as an
    independent cross-check of the model. *)
-From Coq Require Import List Bool Arith Lia.
+From Coq Require Import List Bool Arith NArith Lia.
 From SyModel Require Import Hardlink Inodes.
 From SyProofs Require Import Hardlink_proofs Hardlink_unbounded Inodes_proofs.
 Import ListNotations.
@@ -106,3 +106,40 @@ Theorem C13_updates_do_not_leak : forall U, NoDup U -> forall l s,
   (forall p c, In (p, c) l -> content_of s' p = Some c) /\ (forall q, ~ In q (map fst l) -> content_of s' q = content_of s q).
 Proof. exact updates_correct. Qed.
 Print Assumptions C13_updates_do_not_leak.
+
+(* ---------- names that were already in the destination (Model/Inodes.v relink_group) ---------- *)
+(* "two destination files share an inode exactly when their source files do ... after creation and after later updates":
+   -H links names while they are CREATED; names that already exist (a name added to an old group, files that became links of
+   each other, a group whose members were each rebuilt through a working file) are brought together by the pass that runs after
+   the transfers (`fix: -H brings names that already exist in the destination onto their group's inode`).  For the destination
+   names of one multiply-linked source file, in any order and from any state: afterwards two names that hold the same file share
+   an inode; no name of the destination changed content; names outside the group kept their inode. *)
+Theorem C13_relink_joins_the_group : forall names s,
+  NoDup names ->
+  let s' := relink_group s [] names in
+  (forall p q i j, In p names -> In q names -> d_names s' p = Some i -> d_names s' q = Some j ->
+                   content_of s' p = content_of s' q -> i = j)
+  /\ (forall p, content_of s' p = content_of s p)
+  /\ (forall p, ~ In p names -> d_names s' p = d_names s p).
+Proof. exact relink_group_correct. Qed.
+Print Assumptions C13_relink_joins_the_group.
+
+(* ... and a name of the group is only ever pointed at an inode that a name of the same group had before: the pass creates no
+   link between two groups, nor between a group and a file outside it *)
+Theorem C13_relink_stays_inside_the_group : forall names s q i,
+  d_names (relink_group s [] names) q = Some i ->
+  d_names s q = Some i \/ exists r, In r names /\ d_names s r = Some i.
+Proof.
+  intros names s q i H. destruct (relink_group_stays_inside names s [] q i H) as [A|[[]|B]]; [left; exact A | right; exact B].
+Qed.
+Print Assumptions C13_relink_stays_inside_the_group.
+
+(* non-vacuity: names 1 2 3 on three inodes with the same content (a group after an update of its 10 MB members), name 4 of the
+   group with stale content (its transfer failed), name 9 outside the group on name 1's old inode *)
+Example ex_relink :
+  let s := mk_dstate (fun p => if N.eqb p 1 then Some 10 else if N.eqb p 2 then Some 11 else if N.eqb p 3 then Some 12
+                               else if N.eqb p 4 then Some 13 else if N.eqb p 9 then Some 12 else None)%N
+                     (fun i => if N.eqb i 13 then 7 else 5)%N 14%N in
+  let s' := relink_group s [] [1; 2; 3; 4]%N in
+  (d_names s' 1, d_names s' 2, d_names s' 3, d_names s' 4, d_names s' 9)%N = (Some 10, Some 10, Some 10, Some 13, Some 12)%N.
+Proof. vm_compute. reflexivity. Qed.
